@@ -71,6 +71,9 @@ func Verify[H Header[H]](trstd, untrstd H) error {
 	if !adjacent {
 		// if non-adjacent, we don't know if the header is *really* wrong
 		// so set as soft
+		// NOTE: set it on a copy, the error value may be shared by the Header implementation
+		verErrCopy := *verErr
+		verErr = &verErrCopy
 		verErr.SoftFailure = true
 	}
 	// we trust adjacent verification to it's fullest
